@@ -525,6 +525,7 @@ func C14(c *Ctx) {
 		}
 	}
 	unverifiedLengthGroup(c, "K6.unverified-length-bounded-by-position")
+	valuePointerKeyGroup(c, "K7.value-pointer-key-verified")
 	if fn := c.Fn("file", "SSTable.initTable"); fn != nil {
 		vc := need(c, r1, fn, false, "utils.VerifyChecksum", Named("utils.VerifyChecksum"), 1)
 		for i, u := range need(c, r1, fn, false, "proto.Unmarshal", Named("google.golang.org/protobuf/proto.Unmarshal"), 1) {
@@ -536,11 +537,23 @@ func C14(c *Ctx) {
 
 	const r2 = "K3.vlog-reads-verify"
 	c.Rule(r2, "value-pointer reads go through vlog.Manager.ReadValue → kv.DecodeValueSlice: file.LogFile.Read is called only by Manager.Read, Manager.Read only by Manager.ReadValue, and ReadValue returns the DecodeValueSlice result with its error propagated")
-	onlyCallers(c, r2, c.Fn("vlog", "Manager.Read"), map[string]string{"(*vlog.Manager).ReadValue": "verified read"}, 1)
-	if fn := c.Fn("vlog", "Manager.ReadValue"); fn != nil {
-		for i, d := range need(c, r2, fn, false, "kv.DecodeValueSlice", Named("kv.DecodeValueSlice"), 1) {
-			errPropagated(c, r2, key(fn, fmt.Sprintf("DecodeValueSlice[%d]#error-propagated", i+1)), fn, d)
+	// every caller of the raw Manager.Read decodes what it read with kv.DecodeValueSlice and
+	// propagates its error (ReadValue itself, or the keyed variant it delegates to)
+	if rd := c.Fn("vlog", "Manager.Read"); rd != nil {
+		n := 0
+		for _, root := range c.P.CallerRoots(rd) {
+			n++
+			ds := Calls(root, false, Named("kv.DecodeValueSlice"))
+			c.Decide(len(ds) >= 1, r2, key(rd, "caller:"+FuncName(root)+"#verifies"), root.Pos(), 2, "the raw read is decoded and verified by kv.DecodeValueSlice", FuncName(root)+" reads raw value-log bytes through Manager.Read without verifying them with kv.DecodeValueSlice")
+			for i, d := range ds {
+				errPropagated(c, r2, key(root, fmt.Sprintf("DecodeValueSlice[%d]#error-propagated", i+1)), root, d)
+			}
 		}
+		c.Floor(r2, n, 1, "callers of vlog.Manager.Read")
+	}
+	if fn := c.Fn("vlog", "Manager.ReadValue"); fn != nil {
+		vs := verifySites(c, fn, Named("kv.DecodeValueSlice"), 2)
+		c.Decide(len(vs) >= 1, r2, key(fn, "has:kv.DecodeValueSlice"), fn.Pos(), len(vs)+1, "ReadValue succeeds only after kv.DecodeValueSlice did (directly or through the keyed variant)", "ReadValue no longer verifies the record with kv.DecodeValueSlice")
 	}
 	const r3 = "K5.short-read-classification"
 	c.Rule(r3, "kv.DecodeEntryFrom classifies a short read of key, value or CRC as ErrPartialEntry and a checksum mismatch as ErrBadChecksum; EntryIterator latches the error; wal.DecodeRecord as in C13")
@@ -815,6 +828,113 @@ func walNoWrapGroup(c *Ctx, rule string) {
 			c.Fail(rule, k, fn.Pos(), 2*len(sw)+1, "rotateLocked refuses to rotate although the next segment id exists")
 		default:
 			c.Pass(rule, k, fn.Pos(), 2*len(sw)+1, "no switch when the active id is the last one; the switch is reachable otherwise")
+		}
+	}
+}
+
+// valuePointerKeyGroup (C14): a value pointer stored in the LSM is only as good as the bytes it
+// points at.  Recovery truncates the active value-log segment at a record with a bad checksum
+// and the segment is appended to again, so an old pointer can lead to a later record of another
+// key whose checksum is fine.  The read path therefore verifies the record's key: (a) every
+// production read of a value through a pointer goes through valueLog.readOf / Manager.ReadValueOf
+// with the LSM entry's key (the key-less wrappers have no production caller), and (b) ReadValueOf
+// returns a value for a non-empty key only behind the match edge of the key comparison.
+func valuePointerKeyGroup(c *Ctx, rule string) {
+	c.Rule(rule, "vlog.Manager.ReadValueOf returns success for a non-empty key only when the key stored in the record compares equal (kv.SameKey / bytes.Equal) to it (order-sign evaluation: no nil-error return is reachable on the mismatch edge, one is on the match edge); every production caller of valueLog.readOf and Manager.ReadValueOf passes a key that is not the nil constant, except the key-less wrappers valueLog.read and Manager.ReadValue, which have no production caller")
+	rv := c.FnOpt("vlog", "Manager.ReadValueOf")
+	if rv == nil || len(rv.Params) < 2 {
+		fn := c.Fn("vlog", "Manager.ReadValue")
+		pos := token.NoPos
+		if fn != nil {
+			pos = fn.Pos()
+		}
+		c.Fail(rule, "(*vlog.Manager).ReadValue#verifies-record-key", pos, 1, "value-log reads decode whatever record a pointer leads to and never compare its key with the key the pointer was stored under: after recovery truncated the active segment at a damaged record and new writes re-used the space, old keys silently return the values of other keys")
+		return
+	}
+	keyP := rv.Params[1]
+	isKey := func(v ssa.Value) bool { return Unwrap(v) == keyP }
+	mk := func(match Tri) *SignEnv {
+		signs := map[string]int{}
+		SetSign(signs, "len(key)", "0", 1)
+		return &SignEnv{Depth: 1, Signs: signs,
+			Role: func(v ssa.Value) string {
+				if call, ok := Unwrap(v).(*ssa.Call); ok {
+					if bi, ok := call.Call.Value.(*ssa.Builtin); ok && bi.Name() == "len" && len(call.Call.Args) == 1 && isKey(call.Call.Args[0]) {
+						return "len(key)"
+					}
+				}
+				return ""
+			},
+			Bool: func(v ssa.Value) Tri {
+				call, ok := Unwrap(v).(*ssa.Call)
+				if !ok || len(call.Call.Args) != 2 || !Named("kv.SameKey", "bytes.Equal")(call.Common()) {
+					return Unknown
+				}
+				if isKey(call.Call.Args[0]) || isKey(call.Call.Args[1]) {
+					return match
+				}
+				return Unknown
+			}}
+	}
+	okOnMismatch, okOnMatch := false, false
+	for _, r := range mk(False).ReachableReturns(rv) {
+		if len(r.Results) == 3 && IsNilConst(r.Results[2]) {
+			okOnMismatch = true
+		}
+	}
+	for _, r := range mk(True).ReachableReturns(rv) {
+		if len(r.Results) == 3 && IsNilConst(r.Results[2]) {
+			okOnMatch = true
+		}
+	}
+	k := key(rv, "success<-stored-key-matches")
+	switch {
+	case okOnMismatch:
+		c.Fail(rule, k, rv.Pos(), 3, "ReadValueOf can return a value although the key stored in the record differs from the key the pointer was stored under")
+	case !okOnMatch:
+		c.Fail(rule, k, rv.Pos(), 3, "ReadValueOf never succeeds for a matching key")
+	default:
+		c.Pass(rule, k, rv.Pos(), 3, "a value is returned for a non-empty key only behind the match edge of the key comparison")
+	}
+	// callers
+	wrappers := map[string]bool{"(*NoKV.valueLog).read": true, "(*vlog.Manager).ReadValue": true}
+	n := 0
+	for _, name := range [][2]string{{"", "valueLog.readOf"}, {"vlog", "Manager.ReadValueOf"}} {
+		fn := c.FnOpt(name[0], name[1])
+		if fn == nil {
+			continue
+		}
+		for _, cs := range c.P.CallersOf(fn) {
+			if cs.Site == nil || len(cs.Site.Common().Args) < 2 {
+				continue
+			}
+			caller := FuncName(Root(cs.Caller))
+			if wrappers[caller] {
+				continue
+			}
+			n++
+			arg := cs.Site.Common().Args[1]
+			keyed := !IsNilConst(arg)
+			if caller == "(*NoKV.valueLog).readOf" {
+				// forwards its own key parameter
+				keyed = len(cs.Caller.Params) > 1 && Unwrap(arg) == cs.Caller.Params[1]
+			}
+			c.Decide(keyed, rule, FuncName(cs.Caller)+"#calls:"+name[1]+"#with-key", cs.Site.Pos(), 1, "the read names the key the pointer was stored under", "a value is read through a pointer without naming the key it was stored under (nil key): the record's key is not verified")
+		}
+	}
+	c.Floor(rule, n, 4, "keyed value-log reads (DB.Get path, DB iterator, transaction iterator, Item.ValueCopy)")
+	for _, w := range [][2]string{{"", "valueLog.read"}, {"vlog", "Manager.ReadValue"}} {
+		if fn := c.FnOpt(w[0], w[1]); fn != nil {
+			cnt := 0
+			for _, cs := range c.P.CallersOf(fn) {
+				if cs.Site != nil {
+					cnt++
+					c.Fail(rule, FuncName(cs.Caller)+"#calls:"+w[1]+"#key-less", cs.Site.Pos(), 1, "production code reads a value through the key-less wrapper %s: the record's key is not verified", w[1])
+				}
+			}
+			if cnt == 0 {
+				c.Pass(rule, key(fn, "no-production-caller"), fn.Pos(), 1, "the key-less wrapper is used by tests only")
+			}
 		}
 	}
 }
